@@ -23,7 +23,7 @@ def fmt(v):
     return getattr(v, "name", None) or type(v).__name__
 
 
-def run_digest(case, settings_obj=None, parts=False):
+def run_digest(case, settings_obj=None, parts=False, with_logger=True):
     """-> (hex digest, stats, error) of a run of case['config'] with runner seed case['seed']."""
     h = hashlib.sha256()
     stats = {"records": 0, "callbacks": 0, "fills": 0, "agent_classes": set()}
@@ -47,7 +47,7 @@ def run_digest(case, settings_obj=None, parts=False):
         elif k == "consult_ret":
             feed("consult", [ev["agent"].agent_id, ev["time"], ev["snaps"]])
 
-    out = run_runner_case(case, [sink], settings_obj=settings_obj)
+    out = run_runner_case(case, [sink], settings_obj=settings_obj, with_logger=with_logger)
     sim = out.simulator
     if out.error is None and sim is not None:
         stats["fills"] = len(out.fills)
